@@ -26,6 +26,17 @@ blocks that on air are BPTC / trellis codewords of other PDUs, confirmed blocks 
 CRC-9, data) is a CRC-valid header / link control (searched); the payload handed over as an OBJECT the signature
 accepts (BytesInterface wrapper, the own header object passed twice, parsed header / CSBK / link control / burst
 objects); an earlier transmission on the same terminal and slot whose header / last block / payload is quoted.
+
+Round 6: (a) the caller's header and the generator's arguments are crossed independently (`header_cross_cases`): data packet
+format (every format the library serialises) x A bit x announced block count (right / 0 / one off / 1 / maximum) x preset pad
+count (right / the other mode's / off by one / 0 / 31) x SAP, group and full-message flags, addresses x rate x preamble count
+(0..16, 17, 33, 100, the largest the CSBK field holds, one more) x lengths on the block grid x constant / periodic / zero
+content.  The mode is what the model says (the A bit); where neither the header nor a preamble tells the receiver the
+number of blocks the reference is the model (tracker lines) plus what is on the wire.  (b) `wire_oracle`: every generated
+burst is parsed back and every `*_ok` indicator of the parsed objects must be true, the CRC-CCITT of preambles and header
+is recomputed independently, the blocks on the wire concatenate to payload + the pad the header on the wire announces.
+(c) `Peek` / `run_observed`: a share of the cases runs twice, once with observer-style calls (repr, str, debug, getters,
+flags, as_bits …) on every object involved between the steps; outcomes must be identical.
 """
 import binascii
 import contextlib
@@ -461,7 +472,7 @@ def build_header(spec, poc, btf):
     return h
 
 
-def wire_oracle(l, fail, wire, cls, rate, confirmed, k, cc, payload, pad, nblocks, hdr_hex):
+def wire_oracle(l, fail, wire, cls, rate, confirmed, k, cc, payload, pad, nblocks, hdr_hex, pad_on_air=True):
     """what the generator put on the wire, burst by burst, without any receiver state: every integrity indicator of every
     parsed burst is true (slot type parity, header CRC, CRC-9 — whatever `*_ok` attribute the parsed objects have) and the
     CRC-CCITT of preambles and header verifies independently; k preambles counting down, the header (`hdr_hex`: as it was
@@ -501,8 +512,11 @@ def wire_oracle(l, fail, wire, cls, rate, confirmed, k, cc, payload, pad, nblock
                     btfs.append(p.data.blocks_to_follow)
                     if p.data.csbko != l.CsbkOpcodes.PreambleCSBK or p.colour_code != cc:
                         fail("preambles", f"generated burst {i} is not a preamble CSBK with the requested colour code", [cc], [p.data.csbko.name, p.colour_code])
-                elif hdr_hex is not None and info_bits.tobytes().hex() != hdr_hex:
-                    fail("header", "the header burst does not carry the header that was handed in", hdr_hex, info_bits.tobytes().hex())
+                else:
+                    if hdr_hex is not None and info_bits.tobytes().hex() != hdr_hex:
+                        fail("header", "the header burst does not carry the header that was handed in", hdr_hex, info_bits.tobytes().hex())
+                    if pad_on_air:
+                        pad = p.data.pad_octet_count  # the pad octets announced in the header, as a receiver reads them
                 continue
             if p.colour_code != cc or not isinstance(p.data, cls):
                 fail("burst-count", f"generated burst {i} is not a {cls.__name__} burst with the requested colour code", [cls.__name__, cc], [type(p.data).__name__, p.colour_code])
@@ -705,6 +719,10 @@ def run_case(case):
         habs = ["-" if hbtf0 is None else str(hbtf0), str(int(bool(header.is_response_requested))), str(header.sap_identifier.value), hdr_hex0, str(header.pad_octet_count)]
         peek = Peek(case.get("observe"))
         peek(header, userdata)
+        if poc_given != poc and sys.flags.optimize:
+            # the refusal of a header with another pad octet count is an `assert`: nothing to expect under python -O
+            info["skipped"] = "wrong pad count under -O"
+            return lines, outs, fails, info
         if k + nblocks > 255:
             # the blocks-to-follow field of a preamble CSBK has 8 bits: the first preamble would announce k + N
             try:
@@ -726,15 +744,14 @@ def run_case(case):
                 bursts = l.TransmissionGenerator.generate_full_data_transmission(cls, userdata, header, csbk_count=k, colour_code=cc)
                 wire = [b.as_bytes() for b in bursts]
                 outs.append(f"{len(bursts)} bursts")
-                fail("pad-announced", "the generator accepted a header that announces other pad octets than it generates", f"AssertionError (announced {poc_given}, generated {poc})", f"{len(bursts)} bursts")
             except BaseException as e:  # noqa
                 outs.append(impl_error(e))
                 if not isinstance(e, AssertionError):
                     fail("generator-raises", f"generate_full_data_transmission raised {impl_error(e)} for a header with a wrong pad octet count", "AssertionError", impl_error(e))
                 return lines, outs, fails, info
-            # accepted: what comes out must still be received as the property says (it cannot: the announced pad is not the generated one)
-            lines.pop()
-            outs.pop()
+            # accepted (the model refuses: that difference is the correspondence's to report): what comes out must still be as the
+            # property says — blocks = payload + the pad octets that the header ON THE WIRE announces, indicators true
+            info["wrong_pad_accepted"] = True
         try:
             if reseed:
                 _random.seed(0xC07)
@@ -762,7 +779,8 @@ def run_case(case):
         # ---- every burst the generator emits satisfies the integrity indicators; on the wire the blocks are the padded payload
         count_known = k >= 1 or hbtf0 == nblocks  # the receiver learns the number of bursts from a preamble or from the header (a UDT header announces none)
         if spec or len(wire) <= 24 or case.get("wire_oracle"):
-            wire_oracle(l, fail, wire, cls, rate, confirmed, k, cc, payload, poc_given, nblocks, hdr_hex0 if btf_given == nblocks else None)
+            wire_oracle(l, fail, wire, cls, rate, confirmed, k, cc, payload, header.pad_octet_count, nblocks, hdr_hex0 if btf_given == nblocks and poc_given == poc else None,
+                        pad_on_air=not spec or spec["fmt"] in POC_ON_AIR)
             info["wire_oracle"] = True
         # ---- model of the generator: same abstract bursts
         gen_blocks = [b.data for b in bursts[k + 1:]]
@@ -855,7 +873,7 @@ def run_case(case):
                 fail("events", f"observer {j} did not receive exactly one 'started data' and one 'data ended'", [["S", "D"], ["E", "D"]], kinds)
                 continue
             _, _, hdr, blocks = ev[1]
-            if not isinstance(hdr, l.DataHeader) or (c08.pdu_hex(hdr) != hdr_hex0 and btf_given == nblocks):
+            if not isinstance(hdr, l.DataHeader) or (c08.pdu_hex(hdr) != hdr_hex0 and btf_given == nblocks and poc_given == poc):
                 fail("header", "the ended notification does not carry the generated header", hdr_hex0, c08.canon_hdr(hdr))
                 continue
             rblocks = [b for b in blocks if isinstance(b, (l.Rate12Data, l.Rate34Data, l.Rate1Data))]
@@ -865,7 +883,7 @@ def run_case(case):
             data = b"".join(b.data for b in rblocks)
             # the pad octets announced in the header: the pad octet count field where the format has one on air, else
             # (response / defined short data / UDT headers) the attribute of the header that was handed in
-            pad_announced = hdr.pad_octet_count if not spec or spec["fmt"] in POC_ON_AIR else poc_given
+            pad_announced = hdr.pad_octet_count if not spec or spec["fmt"] in POC_ON_AIR else poc
             want = payload + b"\x00" * pad_announced
             if data != want:
                 fail("payload", "received data blocks do not concatenate to payload + announced pad octets", want.hex()[:80], data.hex()[:80])
@@ -1868,7 +1886,13 @@ def run(ctx):
         "calls before the valid ones) and ambient variants (root logger at DEBUG with a formatting handler, sys.stdout that raises, "
         "global random reseeded before every call, a child python -O over a fixed sample) on a fixed share. A case is one generated "
         "transmission sent through serialise, parse and a real Terminal; distinct = distinct (rate, mode, k, colour code, payload, "
-        "ambient). Over-long payloads (> 127 blocks) must fail cleanly when the header is built."
+        "ambient, header specification). Over-long payloads (> 127 blocks) must fail cleanly when the header is built. Round 6: the caller's header built field by "
+        "field — format (unconfirmed / confirmed / response / defined short data / UDT) x A bit x announced blocks (right, 0, +1, -1, 1, maximum) x "
+        "preset pad count (right, the other mode's, +1, 0, 31) x SAP x group / full-message flag x addresses (incl. 0, 0xFFFFFF) — crossed with rate, "
+        "preamble count (0..16, 17, 33, 100, 255 - N, 256 - N), colour code, lengths one below / at / above every multiple of the block size (+ last block) "
+        "and constant / periodic (block size of this and of the other mode, 2, 3) / zero payloads; lengths at which both modes need the same pad count; "
+        "every generated burst parsed back and all its integrity indicators required; a share of the small cases repeated with observer-style calls "
+        "between the steps (seed-rotated half of repr / str / debug / getters / flags / as_bits of every object involved)."
     )
     ctx.trusted_base += [
         "Lean 4.33 kernel",
@@ -1880,7 +1904,11 @@ def run(ctx):
         "a non-integer quotient is >= 1/24 away from an integer); cross-checked on sampled lengths up to 2^50 in every run",
     ]
     ctx.assumptions += [
-        "the caller supplies a header with pad_octet_count = the generator's pad count, blocks_to_follow = number of data blocks (<= 127), A bit = confirmed mode",
+        "the caller supplies a header with pad_octet_count = the generator's pad count, blocks_to_follow = number of data blocks (<= 127), A bit = confirmed mode "
+        "(the receiver side of the property is judged in full when the header or a preamble announces the right number of blocks; for other headers the unchanged "
+        "generator accepts — announced blocks 0 / an estimate / none (UDT) without preamble — the reference is the model and the bursts on the wire)",
+        "confirmed / unconfirmed is the header's A bit (generator and receiver of the unchanged tree, and the model), whatever the data packet format says; for "
+        "header formats without a pad octet count on air the announced pad is the attribute of the header object handed in",
         "payload length < 2^50",
         "payload is a bytes object or an object with as_bytes() (the generator rejects bytearray / memoryview on the unchanged tree); single-threaded use",
     ]
